@@ -426,11 +426,17 @@ func initExterns() {
 		}
 		return tr.loadFrom(st, l, resT)
 	}}
-	externs["(*"+stPkg+".Stage).UpdateStatus"] = &externH{mods: []string{"scheduler.Stage.Status"}, doc: "UpdateStatus: atomic store of Stage.Status", fn: func(tr *FnCtx, st *State, args []*Val, resT types.Type, instr ssa.Instruction, mode string) *Val {
+	externs["(*"+stPkg+".Stage).UpdateStatus"] = &externH{mods: []string{"scheduler.Stage.Status", "$statusStores"}, doc: "UpdateStatus: atomic store of Stage.Status (counted in ghost $statusStores when that ghost is declared)", fn: func(tr *FnCtx, st *State, args []*Val, resT types.Type, instr ssa.Instruction, mode string) *Val {
 		tr.use("scheduler.Stage.ReadStatus/UpdateStatus are an atomic load/store of the Status field")
 		l := stageStatusLoc(tr, args[0])
 		if l != nil {
 			tr.storeTo(st, l, &Val{T: l.Loc.T, A: args[1].A})
+		}
+		// every status store is counted, so that contracts can demand that each one is accounted for by an anchored justification
+		if _, ok := tr.W.C.Ghosts["$statusStores"]; ok {
+			if cs := tr.resolveComps("$statusStores", tr.Pkg); len(cs) == 1 {
+				tr.set(st, cs[0], add(tr.cur(st, cs[0]), "1"))
+			}
 		}
 		return unit(resT)
 	}}
